@@ -153,6 +153,94 @@ theorem punct_case (b : Bool) (f : Nat) (l : Lexer) (P r : List Char) (c : Char)
     (e11.trans hr1.file)
   exact ⟨q1, P ++ [c], by rw [ht]; simp, q2, by rw [q3, e12, n5.inPattern]; exact hb⟩
 
+theorem consume_tk (l : Lexer) (P suf : List Char) (hc : Cur l P suf) (hp : Pos l P) (hr : Ready file l)
+    (hst : l.state = .ground) (sl sc : Int) (hsl : l.sline = sl) (hsc : l.scol = sc) :
+    Cur (consume l) P suf ∧ Pos (consume l) P ∧ (consume l).start = (encodeChars P).length ∧
+    Ready file (consume l) ∧ (consume l).state = .ground ∧ (consume l).sline = sl ∧ (consume l).scol = sc ∧
+    (consume l).inPattern = l.inPattern := by
+  unfold consume Lexer.pos
+  refine ⟨⟨hc.before, hc.rest, hc.line⟩, ⟨hp.col, hp.tcol⟩, ?_, ⟨hr.items, hr.errout, hr.errcnt, hr.fault, hr.file⟩,
+    hst, hsl, hsc, rfl⟩
+  show l.before.length = _
+  rw [hc.before]; simp
+
+theorem skipTo_found (pat : List UInt8) (l : Lexer) (x : Nat) (h : indexOf pat l.rest = some x) :
+    skipTo pat l = (true, updateCursor x l) := by
+  unfold skipTo; rw [h]
+
+theorem skipTo_none (pat : List UInt8) (l : Lexer) (h : indexOf pat l.rest = none) :
+    skipTo pat l = (false, l) := by
+  unfold skipTo; rw [h]
+
+/-- a single-quoted string -/
+theorem sq_case (b : Bool) (f : Nat) (l : Lexer) (P r : List Char) (ht : text = P ++ '\'' :: r)
+    (hk : Tk file l P ('\'' :: r)) (hb : l.inPattern = b) :
+    match scanSq r with
+    | none => (nextTokenLoop f (groundSQuote l)).2.errout ≠ []
+    | some (s, r') =>
+      (nextTokenLoop (f + 1) (groundSQuote l)).1 = some (conv text file ⟨.sq s, text.length - (r.length + 1)⟩) ∧
+      ∃ pre', text = pre' ++ r' ∧ Gnd file (nextTokenLoop (f + 1) (groundSQuote l)).2 pre' r' ∧
+        (nextTokenLoop (f + 1) (groundSQuote l)).2.inPattern = b := by
+  obtain ⟨n1, n2, n3, _, n5⟩ := next_char l P r '\'' hk.cur (hk.pos.posN _)
+  have hr1 : Ready file (next l).2 := n5.ready hk.ready
+  obtain ⟨c1, c2, c3, c4, c5, c6, c7, c8⟩ := consume_tk file (next l).2 (P ++ ['\'']) r n2 n3 hr1
+    (n5.state.trans hk.state) _ _ (n5.sline.trans hk.sline) (n5.scol.trans hk.scol)
+  cases hs : scanSq r with
+  | none =>
+    simp only
+    have hnm := scanSq_none_iff r hs
+    have hidx : indexOf [39] (consume (next l).2).rest = none := by
+      rw [c1.rest]; exact indexOf_char_none '\'' (by decide) r hnm
+    unfold groundSQuote
+    simp only
+    rw [skipTo_none _ _ hidx]
+    simp only [Bool.false_eq_true, if_false]
+    apply nextTokenLoop_keeps
+    show (errorfAt _ _ _ _).errout ≠ []
+    exact errorfAt_errout _ _ _ _ (Or.inl c4.errcnt)
+  | some p =>
+    obtain ⟨s, r'⟩ := p
+    simp only
+    obtain ⟨hsplit, hnm⟩ := scanSq_split r s r' hs
+    have hidx : indexOf [39] (consume (next l).2).rest = some (encodeChars s).length := by
+      rw [c1.rest, hsplit]; exact indexOf_char '\'' (by decide) s r' hnm
+    obtain ⟨u1, u2, u3⟩ := updateCursor_chars (consume (next l).2) (P ++ ['\'']) s ('\'' :: r')
+      (by rw [← hsplit]; exact c1) c2
+    -- name the lexer after the bulk move
+    obtain ⟨l3, hl3⟩ : ∃ l3, l3 = updateCursor (encodeChars s).length (consume (next l).2) := ⟨_, rfl⟩
+    rw [← hl3] at u1 u2 u3
+    have hr3 : Ready file l3 := u3.ready c4
+    have hemit : emit .string l3 = emitText .string (encodeChars s) l3 :=
+      emit_eq _ _ (P ++ ['\'']) s ('\'' :: r') u1 (by rw [u3.start]; exact c3)
+    have htok : Token.mk Code.string (encodeChars s) l3.file l3.sline (l3.scol + 1) =
+        conv text file ⟨.sq s, text.length - (r.length + 1)⟩ := by
+      rw [← tok_eq text file P r '\'' ht (.sq s) _ _ (u3.sline.trans c6) (u3.scol.trans c7), hr3.file]
+      rfl
+    obtain ⟨l4, hl4⟩ : ∃ l4, l4 = emitText .string (encodeChars s) l3 := ⟨_, rfl⟩
+    have hg : groundSQuote l = setState .ground (next l4).2 := by
+      unfold groundSQuote
+      simp only
+      rw [skipTo_found _ _ _ hidx]
+      simp only [if_true]
+      rw [← hl3, hemit, ← hl4]
+    rw [hg]
+    obtain ⟨f1, f2, f3, f4, f5, f6, f7, f8, f9, f10, f11, f12⟩ := emitText_frame .string (encodeChars s) l3
+    rw [← hl4] at f1 f2 f3 f4 f5 f6 f7 f8 f9 f10 f11 f12
+    have hcur4 : Cur l4 (P ++ ['\''] ++ s) ('\'' :: r') := ⟨f1.trans u1.before, f2.trans u1.rest, f3.trans u1.line⟩
+    have hpos4 : Pos l4 (P ++ ['\''] ++ s) := ⟨f4.trans u2.col, f5.trans u2.tcol⟩
+    obtain ⟨m1, m2, m3, _, m5⟩ := next_char l4 _ r' '\'' hcur4 (hpos4.posN _)
+    have hitems : (setState .ground (next l4).2).items =
+        [conv text file ⟨.sq s, text.length - (r.length + 1)⟩] := by
+      rw [setState_items, m5.items, hl4, emitText_items _ _ _ hr3.items, htok]
+    obtain ⟨q1, q2, q3⟩ := finish file f _ _ (P ++ ['\''] ++ s ++ ['\'']) r' hitems rfl
+      ⟨m2.before, m2.rest, m2.line⟩ (posN_of_fields (m3.posN r') rfl rfl)
+      (by rw [setState_errout, m5.errout, f6]; exact hr3.errout)
+      (by rw [setState_errcnt, m5.errcnt, f7]; exact hr3.errcnt)
+      (by rw [setState_fault, m5.fault, f8]; exact hr3.fault)
+      (by rw [setState_file, m5.file, f9]; exact hr3.file)
+    refine ⟨q1, P ++ ['\''] ++ s ++ ['\''], by rw [ht, hsplit]; simp, q2, ?_⟩
+    rw [q3, setState_inPattern, m5.inPattern, f10, u3.inPattern, c8, n5.inPattern]; exact hb
+
 end
 
 end Goyang.Lemmas.TokSim
